@@ -361,6 +361,7 @@ type rawBackend struct {
 	seen  []seenReq
 	conns map[net.Conn]bool
 	reply string
+	dropNext int // close the connection without answering this many proxied requests
 }
 
 const chatReply = `{"id":"chatcmpl-1","object":"chat.completion","created":1,"model":"m1","choices":[{"index":0,"message":{"role":"assistant","content":"hi"},"finish_reason":"stop"}],"usage":{"prompt_tokens":1,"completion_tokens":1,"total_tokens":2}}`
@@ -469,6 +470,11 @@ func (b *rawBackend) handle(conn net.Conn) {
 			body = `{"object":"list","data":[{"id":"m1","object":"model"}]}`
 		} else {
 			b.mu.Lock()
+			if b.dropNext > 0 {
+				b.dropNext--
+				b.mu.Unlock()
+				return // closed without an answer: the engine's RoundTrip fails
+			}
 			b.seen = append(b.seen, seenReq{Line: rl, Lines: lines})
 			b.mu.Unlock()
 		}
@@ -748,6 +754,33 @@ func stackPart(c *vlib.Cases, r *vlib.Rng, thorough bool) {
 			s.stop()
 			b.refuse()
 		}
+		// a request whose only attempt dies in the transport, then requests of OTHER clients on the same engine
+		// instance: nothing of the failed request's headers may show up in them
+		for i := 0; i < failovers; i++ {
+			b := newBackend()
+			s, err := startStack(engine, []epSpec{{"only", "openai", 100, b}})
+			if err != nil {
+				c.Emit(map[string]any{"kind": "stack-error", "engine": engine, "impl": map[string]any{"err": err.Error()}})
+				continue
+			}
+			for round := 0; round < 2; round++ {
+				b.mu.Lock()
+				b.dropNext = 1
+				b.mu.Unlock()
+				var sb strings.Builder
+				fmt.Fprintf(&sb, "POST /olla/proxy/v1/chat/completions HTTP/1.1\r\nHost: olla.test:4040\r\n")
+				for _, l := range genLines(r, true) {
+					fmt.Fprintf(&sb, "%s: %s\r\n", l[0], l[1])
+				}
+				fmt.Fprintf(&sb, "X-Tenant-Id: tenant-of-the-failed-request\r\nX-Trace-Context: failed-%d\r\nContent-Length: 2\r\n\r\n{}", i)
+				rawDo(s.addr, sb.String())
+				for k := 0; k < 3; k++ {
+					stackCase(c, engine, routes[(i+k)%3], false, genLines(r, false), s, b, nil)
+				}
+			}
+			s.stop()
+			b.refuse()
+		}
 		// fail-over: the preferred endpoint passes its health check, then refuses connections
 		for i := 0; i < failovers; i++ {
 			a, b := newBackend(), newBackend()
@@ -758,6 +791,11 @@ func stackPart(c *vlib.Cases, r *vlib.Rng, thorough bool) {
 			}
 			a.refuse()
 			stackCase(c, engine, routes[i%3], true, genLines(r, true), s, b, nil)
+			// later requests on the same engine instance, each with its own header set: nothing of the
+			// request whose first attempt failed may show up in them
+			for k := 0; k < 3; k++ {
+				stackCase(c, engine, routes[(i+k)%3], false, genLines(r, k == 0), s, b, nil)
+			}
 			s.stop()
 			b.refuse()
 		}
